@@ -232,3 +232,115 @@ theorem rr_fair (st : RR) (hw : WF st) (ps : List Int) (hs : ps.Pairwise (· ≤
     exact ⟨picks, st, hp, hcnt⟩
 
 end Afkak.Partitioner
+
+namespace Afkak.Partitioner
+
+theorem PMap.get_set_same (m : PMap) (t : String) (st : RR) : (m.set t st).get t = some st := by
+  induction m with
+  | nil => simp [PMap.set, PMap.get]
+  | cons hd rest ih =>
+    obtain ⟨t', st'⟩ := hd
+    unfold PMap.set
+    by_cases h : t' = t
+    · simp [h, PMap.get]
+    · simp [h, PMap.get, ih]
+
+theorem PMap.get_set_other (m : PMap) (t t' : String) (st : RR) (h : t' ≠ t) :
+    (m.set t st).get t' = m.get t' := by
+  induction m with
+  | nil => simp [PMap.set, PMap.get, Ne.symm h]
+  | cons hd rest ih =>
+    obtain ⟨t'', st''⟩ := hd
+    unfold PMap.set
+    by_cases h2 : t'' = t
+    · subst h2; simp [PMap.get, Ne.symm h]
+    · simp only [h2, if_false, PMap.get]; rw [ih]
+
+/-- A call for another topic leaves topic `t`'s partitioner untouched. -/
+theorem nextPartitionRR_other {m m' : PMap} {t t' : String} {ps : List Int} {start : Option Nat} {x : Int}
+    (h : nextPartitionRR m t' ps start = some (x, m')) (hne : t ≠ t') : m'.get t = m.get t := by
+  unfold nextPartitionRR at h
+  generalize getOrNew m t' ps start = st? at h
+  cases st? with
+  | none => exact absurd h (by simp)
+  | some st =>
+    simp only at h
+    cases hr : rrPartition st ps start with
+    | none => rw [hr] at h; exact absurd h (by simp)
+    | some r =>
+      obtain ⟨y, st'⟩ := r
+      rw [hr] at h
+      simp only [Option.some.injEq, Prod.mk.injEq] at h
+      obtain ⟨_, rfl⟩ := h
+      exact PMap.get_set_other _ _ _ _ hne
+
+/-- The outcome of a call for topic `t` depends only on `t`'s own partitioner. -/
+theorem nextPartitionRR_congr {m1 m2 : PMap} {t : String} (ps : List Int) (start : Option Nat)
+    (h : m1.get t = m2.get t) :
+    (nextPartitionRR m1 t ps start = none ∧ nextPartitionRR m2 t ps start = none) ∨
+    ∃ x m1' m2', nextPartitionRR m1 t ps start = some (x, m1') ∧
+      nextPartitionRR m2 t ps start = some (x, m2') ∧ m1'.get t = m2'.get t := by
+  have hg : getOrNew m1 t ps start = getOrNew m2 t ps start := by unfold getOrNew; rw [h]
+  unfold nextPartitionRR
+  rw [hg]
+  generalize getOrNew m2 t ps start = st?
+  cases st? with
+  | none => left; exact ⟨rfl, rfl⟩
+  | some st =>
+    cases hr : rrPartition st ps start with
+    | none => left; simp only [hr, and_self]
+    | some r =>
+      obtain ⟨x, st'⟩ := r
+      right
+      refine ⟨x, m1.set t st', m2.set t st', ?_, ?_, ?_⟩
+      · simp only [hr]
+      · simp only [hr]
+      · rw [PMap.get_set_same, PMap.get_set_same]
+
+/-- Isolation: the selections made for topic `t` under ANY interleaving with calls for other topics
+    are exactly those made when only `t`'s calls are executed. -/
+theorem picksOf_filter (t : String) (m1 m2 : PMap) (h : m1.get t = m2.get t) (cs : List Call) :
+    picksOf t m1 cs = picksOf t m2 (cs.filter (fun c => c.topic = t)) := by
+  induction cs generalizing m1 m2 with
+  | nil => rfl
+  | cons c cs ih =>
+    by_cases hc : c.topic = t
+    · have hf : (c :: cs).filter (fun c => c.topic = t) = c :: cs.filter (fun c => c.topic = t) := by
+        simp [hc]
+      rw [hf]
+      simp only [picksOf, hc]
+      rcases nextPartitionRR_congr c.ps c.start h with ⟨h1, h2⟩ | ⟨x, m1', m2', h1, h2, h3⟩
+      · rw [h1, h2]; simp only [if_true]; rw [ih m1 m2 h]
+      · rw [h1, h2]; simp only [if_true]; rw [ih m1' m2' h3]
+    · have hf : (c :: cs).filter (fun c => c.topic = t) = cs.filter (fun c => c.topic = t) := by
+        simp [hc]
+      rw [hf]
+      simp only [picksOf, hc, if_false, List.nil_append]
+      cases hn : nextPartitionRR m1 c.topic c.ps c.start with
+      | none => exact ih m1 m2 h
+      | some r =>
+        obtain ⟨x, m'⟩ := r
+        exact ih m' m2 (by rw [nextPartitionRR_other hn (Ne.symm hc)]; exact h)
+
+/-- Executing only `t`'s calls, all with the same list, is the round-robin partitioner itself. -/
+theorem picksOf_replicate (t : String) (m : PMap) (st : RR) (hg : m.get t = some st)
+    (ps : List Int) (start : Option Nat) (k : Nat) (picks : List Int) (st' : RR)
+    (h : rrPicks st ps start k = some (picks, st')) :
+    picksOf t m (List.replicate k ⟨t, ps, start⟩) = picks.map some := by
+  induction k generalizing m st picks with
+  | zero => simp [rrPicks] at h; simp [picksOf, h.1]
+  | succ k ih =>
+    simp only [rrPicks] at h
+    split at h
+    · exact absurd h (by simp)
+    · rename_i x st1 hx
+      split at h
+      · exact absurd h (by simp)
+      · rename_i zs st2 hz
+        simp only [Option.some.injEq, Prod.mk.injEq] at h
+        obtain ⟨rfl, rfl⟩ := h
+        simp only [List.replicate_succ, picksOf, nextPartitionRR, getOrNew, hg, hx, if_true, List.map_cons,
+          List.singleton_append]
+        rw [ih (m.set t st1) st1 (PMap.get_set_same _ _ _) zs hz]
+
+end Afkak.Partitioner
